@@ -386,6 +386,15 @@ def run(ctx):
     fam = ctx.facts("family")
     run_on(ctx, fam, "family")
     run_on(ctx, facts, "crate")
+    if ctx.tier == "thorough" and ctx.override is None:
+        # deeper family: arities up to 5 x 5 and field-order variants (outputs first / interleaved)
+        big = ctx.facts("family_big")
+        sfx = ctx.suffix
+        ctx.suffix = "@big"
+        run_on(ctx, big, "family_big")
+        ctx.suffix = sfx
+        ctx.explain("THOROUGH: additionally the big generated family (40 blocks: every (inputs, outputs) in 1..5 x 1..5 with a 4 or a 5, "
+                    "and outputs-first / interleaved field orders of 2x2 and 3x3, sync and sync_tag).")
     witness.report(ctx, "C19.R1w", "w_c19_r1_")
     ctx.floor("C19.R1", 39 + 20, "generated new(): 39 family blocks + >= 20 in-crate `new` users")
     ctx.floor("C19.R2", 36 * 6 + 18 * 6, "6 obligations x (36 family + 18 in-crate sync blocks)")
